@@ -245,6 +245,7 @@ MatchBits(ls, le, ds, de) ==
 
 EmitMatch(ls, le, ds, de) ==
   /\ ph = "tokens" /\ ntok < MaxTokens /\ HasSym(ll, ls) /\ ds <= 29 /\ HasSym(dl, ds)
+  /\ le < Pow2(LenExtra[ls - 256]) /\ de < Pow2(DistExtra[ds + 1])
   /\ LET len == LenBase[ls - 256] + le
          dist == DistBase[ds + 1] + de
      IN /\ dist <= Len(plain)
@@ -398,7 +399,7 @@ StoredChoices == {<<>>, <<7>>} \cup {<<a, b, a>> : a, b \in Lits}
 
 LenChoices == {<<257, 0>>, <<258, 0>>, <<264, 0>>, <<265, 1>>, <<269, 3>>, <<273, 0>>, <<284, 30>>, <<284, 0>>, <<285, 0>>,
                <<259, 0>>, <<268, 1>>, <<280, 15>>}
-DistChoices == {<<0, 0>>, <<1, 0>>, <<2, 0>>, <<3, 0>>, <<4, 1>>, <<5, 0>>, <<8, 7>>, <<12, 0>>, <<16, 127>>, <<20, 1023>>,
+DistChoices == {<<0, 0>>, <<1, 0>>, <<2, 0>>, <<3, 0>>, <<4, 1>>, <<5, 0>>, <<8, 7>>, <<12, 0>>, <<16, 127>>, <<20, 511>>,
                 <<24, 0>>, <<28, 0>>, <<29, 8191>>, <<29, 0>>}
 
 GNext ==
